@@ -274,7 +274,11 @@ fn gen_input() -> Input {
             Input { bytes, what: format!("field:{}", names.join("+")), declared, server_fault: None, source_hint: data }
         }
         _ => {
-            let fault = gen::t(|t| match t.draw(8) {
+            let fault = gen::t(|t| match t.draw(12) {
+                8 => NetFault::Endless,
+                9 => NetFault::CutAfter(0),
+                10 => NetFault::Refuse,
+                11 => NetFault::CutAfter(1 + t.draw(40) as usize),
                 6 | 7 => NetFault::LieContentLength(*t.pick(&[u64::MAX, 1 << 63, (1 << 63) - 1, 1 << 62, 1 << 40, 1 << 36, 0, 1])),
                 0 => NetFault::Extra(1 + t.draw(100) as usize),
                 1 => NetFault::Extra(1 << 20),
@@ -325,7 +329,8 @@ pub fn run(ctx: &mut Ctx) {
                 // misbehave on one request (header or chunk data), or on all of them
                 let mut g = s.lock().unwrap();
                 if gen::chance(1, 2) {
-                    g.script = vec![Some(f.clone()); 64];
+                    // a server that never recovers
+                    g.default_fault = Some(f.clone());
                 } else {
                     let at = gen::draw(4) as usize;
                     let mut sc = vec![None; at];
@@ -342,18 +347,21 @@ pub fn run(ctx: &mut Ctx) {
         scen::draw_schedule();
         alloc::reset();
         let archive_arg = if http { scen::URL } else { "a.cba" };
+        // retries (with a delay in virtual time) must still end against a server that never recovers
+        let retries = if http { gen::draw(4) } else { 0 };
+        let retry_delay = if retries > 0 { *gen::t(|t| t.pick(&[0u64, 0, 1, 10])) } else { 0 };
         let args: Vec<String> = match op {
             "info" => crate::cli::args(&["bita", "info", archive_arg]),
-            "clone" => scen::clone_args("a.cba", "out.bin", &CloneOpts { http, buffers: gen::gen_buffers(), ..Default::default() }),
+            "clone" => scen::clone_args("a.cba", "out.bin", &CloneOpts { http, buffers: gen::gen_buffers(), retries, retry_delay, ..Default::default() }),
             "clone-seed" => {
                 scen::put_file("seed0.bin", &inp.source_hint);
-                scen::clone_args("a.cba", "out.bin", &CloneOpts { http, buffers: gen::gen_buffers(), seeds: vec!["seed0.bin".into()], ..Default::default() })
+                scen::clone_args("a.cba", "out.bin", &CloneOpts { http, buffers: gen::gen_buffers(), seeds: vec!["seed0.bin".into()], retries, retry_delay, ..Default::default() })
             }
             _ => {
                 let mut prior = inp.source_hint.clone();
                 prior.rotate_left(inp.source_hint.len() / 3);
                 scen::put_file("out.bin", &prior);
-                scen::clone_args("a.cba", "out.bin", &CloneOpts { http, buffers: gen::gen_buffers(), seed_output: true, ..Default::default() })
+                scen::clone_args("a.cba", "out.bin", &CloneOpts { http, buffers: gen::gen_buffers(), seed_output: true, retries, retry_delay, ..Default::default() })
             }
         };
         let r = scen::run(&args);
